@@ -26,8 +26,11 @@ func SafeCmdExecution(executable string, args []string, timeout time.Duration) (
 	}
 
 	if err != nil {
-		exitError := err.(*exec.ExitError)
-		ui.Warning("Command failed to execute: %s: %s", executable, string(exitError.Stderr))
+		if exitError, ok := err.(*exec.ExitError); ok {
+			ui.Warning("Command failed to execute: %s: %s", executable, string(exitError.Stderr))
+		} else {
+			ui.Warning("Command failed to execute: %s: %v", executable, err)
+		}
 		return "", err
 	}
 
